@@ -31,8 +31,10 @@ def lemma_obligations(R, prop):
             variants = [('', [])]
             if lo.cases:
                 variants = [('#case-' + cl, [cc]) for cl, cc in lo.cases]
-                out.append(symex.Obligation('lemma#' + lo.name + '#cases-cover', 'lemma', f.__name__, None,
-                                            list(assumptions), z3.Or([cc for _, cc in lo.cases]), {'no_entry_state': True}))
+                oc = symex.Obligation('lemma#' + lo.name + '#cases-cover', 'lemma', f.__name__, None,
+                                      list(assumptions), z3.Or([cc for _, cc in lo.cases]), {'no_entry_state': True})
+                oc.atoms = ex.atoms
+                out.append(oc)
             for suffix, extra in variants:
                 o = symex.Obligation('lemma#' + lo.name + suffix, 'lemma', f.__name__, None, assumptions + extra, goal,
                                      {'no_entry_state': True})
@@ -40,6 +42,7 @@ def lemma_obligations(R, prop):
                     o.info['timeout'] = lo.timeout
                 if lo.logic:
                     o.info['logic'] = lo.logic
+                o.atoms = ex.atoms
                 out.append(o)
     return out
 
